@@ -384,3 +384,9 @@ def cases(draw):
 
 def stages(ctx):
     return [Stage("fuzz", "hyp", strategy=cases(), examples=ctx.n(20000, 600000))]
+
+
+def extra_phase(ctx, known, total):
+    """thorough tier: coverage-guided campaign (atheris/libFuzzer over the same strategy and oracle)"""
+    from vlib import coverage_stage
+    return coverage_stage.run(ctx, known, total, ID, ctx.n(0, 30000))
